@@ -23,20 +23,21 @@ Variable hash160 : list N -> list N.
 Local Notation child := (child point hmac512 point_of_scalar padd pzero ser_point parse_point hash160).
 
 Lemma guard_depth k i : xk_depth k = 255 -> child k i = Err E_depth.
-Proof. intros H. unfold HD.child. rewrite H, const_maxUint8. reflexivity. Qed.
+Proof using. intros H. unfold HD.child. rewrite H, const_maxUint8. reflexivity. Qed.
 
 Lemma guard_hardened_from_public k i :
   xk_depth k <> 255 -> xk_priv k = false -> 2 ^ 31 <= i -> child k i = Err E_hardpub.
-Proof.
+Proof using.
   intros Hd Hp Hi. unfold HD.child. rewrite const_maxUint8, const_HardenedKeyStart.
   destruct (N.eqb_spec (xk_depth k) 255) as [|_]; [contradiction|].
   rewrite Hp. destruct (N.leb_spec (2 ^ 31) i) as [_|]; [reflexivity | lia].
 Qed.
 
-Lemma guard_seed_length seed nt :
+End Guards.
+
+Lemma guard_seed_length (hmac512 : list N -> list N -> list N) seed nt :
   (length seed < 16 \/ 64 < length seed)%nat -> new_master hmac512 seed nt = Err E_seedlen.
 Proof.
   intros H. unfold new_master. destruct const_seed_bounds as [-> ->].
   destruct (Nat.ltb_spec (length seed) 16), (Nat.ltb_spec 64 (length seed)); try reflexivity; lia.
 Qed.
-End Guards.
